@@ -1,0 +1,8 @@
+//go:build verif
+
+package json
+
+// C05: inventory of the Go-map range loops of this package. A loop over a Go map visits its entries in a random
+// order, so every such loop must be listed here with the reason why nothing observable depends on the order (an
+// empty list states that the package has none; seed C05d added one to math.sum).
+//@ scan[C05.maploops.json] C05 maprange json:
